@@ -36,6 +36,40 @@ void f(void)
 """
 
 
+# nested parenthesised expressions in which every level starts its own continuation line, typed with an irregular
+# indentation (inside a macro body and in plain code): the indent of a level is taken from the column its '(' has
+MLPROG = """#define SUM4(a, b, c, d) \\
+  ((a) + \\
+    ((b) * \\
+       ((c) + \\
+     (d))))
+#define CALL3(x) \\
+     f((x), \\
+  g((x), \\
+         h((x))))
+int use(int a, int b, int c, int d)
+{
+  int r = f(a,
+     g(b,
+          h(c,
+      d)));
+  if ((a &&
+       (b ||
+          (c &&
+     d))))
+    r = (a +
+        (b *
+      (c -
+            d)));
+  int t[] = { 1,
+        2,
+    3 };
+  return SUM4(a, b, c, d) + CALL3(r) +
+     t[0];
+}
+"""
+
+
 def _job(a):
     unc, tmp, i, jid, data, lang, cfgpath, profile = a
     ext = EXT.get(lang, ".c")
@@ -103,7 +137,13 @@ def run(ctx):
             srcs[jid] = (data, c.lang or corpus.lang_of(c.inp), open(p).read())
     # programs of the other checks: every profile
     gen = [("dense_C", hazard.DENSE["C"], "C"), ("dense_CPP", hazard.DENSE["CPP"], "CPP"), ("modprog_C", MODPROG["C"], "C"),
-           ("modprog_CPP", MODPROG["CPP"], "CPP"), ("spacey_C", SPACEY["C"], "C"), ("spacey_CPP", SPACEY["CPP"], "CPP"), ("macrocmt", MACROCMT, "C")]
+           ("modprog_CPP", MODPROG["CPP"], "CPP"), ("spacey_C", SPACEY["C"], "C"), ("spacey_CPP", SPACEY["CPP"], "CPP"), ("macrocmt", MACROCMT, "C"), ("mlprog", MLPROG, "C")]
+    # the same programs typed with seeded irregular indentation and trailing blanks (c17.dirty): what the first run has to move
+    from .c17 import dirty
+    for name, t, lang in list(gen):
+        if name.startswith(("dense", "modprog", "mlprog")):
+            for v in range(1 if quick else 3):
+                gen.append(("%s_dirty%d" % (name, v), dirty(ctx.rng, t), lang))
     for name, t, lang in gen:
         for p in profiles:
             jid = "profile|%s|gen/%s" % (os.path.basename(p), name)
